@@ -10,7 +10,7 @@ LEVEL = "translation_validation"
 
 MODULES = ["TLVerif.Props.C27"]
 THEOREMS = ["TLVerif.Props.C27." + t for t in [
-    "equiv_same_tl2_and_json"]]
+    "consistent_same_tl2_and_json", "equiv_same_tl2_and_json"]]
 
 PLANTED = [
     ("ns-partial", "int#a8509bda ? = Int;\nns.foo x:int = ns.Foo;\nns.bar y:int = ns.Bar;\n", "ns.foo"),
